@@ -9,6 +9,7 @@ import fam_writepath
 import fam_search
 import fam_minmax
 import fam_merge
+import fam_query
 
 
 class WritePathFamily:
@@ -39,7 +40,18 @@ class MergeFamily:
     evidence = staticmethod(fam_merge.evidence)
 
 
-FAMILIES = [WritePathFamily, SearchFamily, MinMaxFamily, MergeFamily]
+class QueryFamily:
+    NAME = "query"
+    PROPS = fam_query.PROPS
+    compute = staticmethod(fam_query.compute)
+    evidence = staticmethod(fam_query.evidence)
+
+
+FAMILIES = [WritePathFamily, SearchFamily, MinMaxFamily, MergeFamily, QueryFamily]
+
+# families whose monitors also judge predicates of a property owned by another family: their
+# violations of that property are reported by the property's check as well
+SECONDARY = {"C23": [QueryFamily]}
 
 
 def family_of(pid):
@@ -64,9 +76,11 @@ def matches(finding, v):
     return True
 
 
-def report(fam, pid, tier, seed, res, wall):
+def report(fam, pid, tier, seed, res, wall, extra=()):
     known = vcommon.load_known()
     mine = [v for v in res.get("violations", []) if v["prop"] == pid]
+    for name, r2 in extra:
+        mine += [dict(v, family=name) for v in r2.get("violations", []) if v["prop"] == pid]
     unrepro = [v for v in mine if not v.get("reproduced", True)]
     real = [v for v in mine if v.get("reproduced", True)]
     new, seen_known = [], {}
@@ -79,6 +93,10 @@ def report(fam, pid, tier, seed, res, wall):
             new.append(v)
     level, coverage, assumptions = fam.evidence(pid, tier, res)
     coverage["known_findings_seen"] = {k: n for k, (f, n) in seen_known.items()}
+    for name, r2 in extra:
+        coverage["also_judged_by_" + name] = {"observations": r2.get("impl", {}).get("obs"), "design_states": r2.get("design", {}).get("states")}
+        if r2.get("design", {}).get("violations") and not res.get("design_failed"):
+            res["design_failed"] = r2["design"]["violations"]
     coverage["unreproduced_alarms"] = len(unrepro)
     coverage["family_result_from_cache"] = bool(res.get("from_cache"))
     vcommon.write_evidence(pid, tier, seed, level, coverage, res.get("wall_s", wall), len(new), assumptions)
